@@ -8,6 +8,7 @@ Kap/Spec/C09Svc.lean (`svc_delivery_is_chain_semantics`), the fuel is adequate (
 -/
 import Kap.Model.C09Svc
 import Kap.Proofs.C09SvcTbl
+import Kap.Proofs.C09Agg
 namespace Kap.Props.C09Svc
 open Kap.C09 Kap.C09.Svc
 
@@ -300,5 +301,40 @@ instance : Decidable (SingleEntryAlways diamond) := by unfold SingleEntryAlways;
 theorem single_entry_needed : ¬ SingleEntryAlways diamond ∧
     ((Svc.run diamond).received "r" "p2").length = 2 ∧ (SvcSpec.received diamond "r" "p2").length = 1 := by
   decide
+
+/-! ## The aggregate handler's content rule -/
+
+/-- **Aggregate handler**: a tick emits nothing for an empty collection, and otherwise ONE event whose level is
+the maximum level of the collected events, whose time is the latest of their times and whose count is their
+number — for every sequence of collected events (transcription of the loop in `aggregateHandler.run`). -/
+theorem aggregate_content_rule (evs : List Agg.In) :
+    (evs = [] → Agg.tick evs = none) ∧
+    (evs ≠ [] → ∃ o, Agg.tick evs = some o ∧ Agg.contentOK evs o = true) := by
+  constructor
+  · intro h; subst h; rfl
+  · intro h
+    cases evs with
+    | nil => exact absurd rfl h
+    | cons e rest =>
+      refine ⟨_, by unfold Agg.tick; rfl, ?_⟩
+      obtain ⟨_, l2, l3⟩ := Agg.fold_level (e :: rest) { level := 0, time := none, count := (e :: rest).length }
+      obtain ⟨rt, t1, t2, t3⟩ := Agg.fold_time_none e rest { level := 0, time := none, count := (e :: rest).length } rfl
+      have hc := Agg.fold_count (e :: rest) { level := 0, time := none, count := (e :: rest).length }
+      unfold Agg.contentOK
+      rw [t1, hc]
+      simp only [List.isEmpty_cons, Bool.not_false, Bool.true_and, beq_self_eq_true, Bool.and_true, Bool.and_eq_true]
+      constructor
+      · unfold Agg.isMaxLevel
+        rw [Bool.and_eq_true, List.all_eq_true, Bool.or_eq_true, List.any_eq_true]
+        refine ⟨fun x hx => decide_eq_true (l2 x hx), ?_⟩
+        rcases l3 with l3 | ⟨x, hx, l3⟩
+        · left; rw [l3]; rfl
+        · right; exact ⟨x, hx, by simpa using l3⟩
+      · unfold Agg.isLatest
+        rw [Bool.and_eq_true, List.all_eq_true, List.any_eq_true]
+        obtain ⟨x, hx, hxe⟩ := t3
+        exact ⟨fun y hy => decide_eq_true (t2 y hy), x, hx, by simpa using hxe⟩
+
+example : Agg.tick [⟨1, 10⟩, ⟨3, 30⟩, ⟨2, 20⟩] = some { level := 3, time := some 30, count := 3 } := by decide
 
 end Kap.Props.C09Svc
